@@ -665,6 +665,13 @@ func (env *Env) evalCall(e *ast.CallExpr) *Term {
 	switch f := ast.Unparen(e.Fun).(type) {
 	case *ast.Ident:
 		fobj = info.Uses[f]
+		// application of a ghost logical map
+		if t, ok := env.vars[fobj]; ok {
+			if _, _, isArr := arrParts(t.sort); isArr && len(e.Args) == 1 {
+				return c.Select(t, env.eval(e.Args[0]))
+			}
+			cfail("call of non-ghost function value %s in contract", f.Name)
+		}
 	case *ast.SelectorExpr:
 		fobj = info.Uses[f.Sel]
 	case *ast.IndexExpr: // explicit instantiation
